@@ -287,5 +287,6 @@ void fdlayer_end_of_run() __attribute__((weak));
 void crash_install();
 void crash_thread_init(Thread* t);
 void describe_threads(char* buf, size_t n);
+void library_site(char* out, size_t n);
 
 }  // namespace rt
